@@ -87,6 +87,7 @@ var (
 		p.PGroup, p.PBypass, p.PFailCheckAct, p.PContFail, p.MaxContFailRun = 55, 10, 12, 45, 6
 		p.PFailSeqAct, p.PGate, p.DeferredRetries0 = 15, 60, true
 		p.ContDelays = []int{0, 0, 1, 2}
+		p.PLongHold = 3
 	})
 	pfDurability = withProfile(lab.ProfileDefault, func(p *lab.Profile) {
 		p.Name = "durability"
@@ -267,7 +268,10 @@ func TestC06(t *testing.T) {
 
 func TestC07(t *testing.T) {
 	vprop.Run(t, engineSpec("C07", []lab.Profile{pfCont}, lab.RunOpts{}, func(rr *lab.RunResult, res *vprop.Result) {
-		late := lab.CheckC07(rr, res)
+		late, held := lab.CheckC07(rr, res)
+		if held {
+			res.Label("held-250ms-under-cont-check")
+		}
 		if late {
 			res.NonTrivial = true
 			res.Label("cont-failed-at-run>=2")
